@@ -200,6 +200,10 @@ inductive Op
   | remove (path : String) (task : Nat)
   | farcallList (items : List (String × Nat))
   | raise
+  /-- `try: <body> except Exception: pass` in the user's code: an error inside is swallowed, what was emitted stays -/
+  | attempt (body : List Op)
+  /-- `load_program(path, task_id=<something int() rejects>)`: refused before anything is emitted or recorded -/
+  | loadBad (path : String)
 deriving Repr, Inhabited
 
 /-- result of running operations: emitted statements, hoisted `DVAR` lines (latest first, as `appendleft`
@@ -292,6 +296,8 @@ mutual
     | .remove p t, cs => removeOp p t cs
     | .farcallList items, cs => farcallListOp cfg items cs
     | .raise, cs => { cs := cs, err := some .user }
+    | .attempt body, cs => let r := execOps cfg body cs; { r with err := none }
+    | .loadBad _, cs => { cs := cs, err := some (.value "task id is not an integer") }
   def execOps (cfg : Cfg) : List Op → CS → Res
     | [], cs => { cs := cs }
     | op :: ops, cs =>
